@@ -1,0 +1,6 @@
+//! Verification hook for property C14 (read-only): exposes the private base64 alphabet table.
+
+/// Copy of the private `BASE64_ENCODE` table as the compiler sees it.
+pub fn base64_encode_table() -> Vec<u8> {
+    super::BASE64_ENCODE.to_vec()
+}
